@@ -88,6 +88,7 @@ enum {
   mythv_p_desc_field,
   mythv_p_sleepq,
   mythv_p_q_put_recentre,
+  mythv_p_ctx_save,
   mythv_p_user = 100
 };
 
@@ -113,7 +114,10 @@ void mythv_leave(int rank);
 #ifdef MYTH_VERIF_NO_POINTS
 /* for runtimes that see every access anyway (compiler-inserted callbacks) */
 #define MYTH_VERIF_POINT(id, lv)  ((void)0)
+#define MYTH_VERIF_CTX_SAVE(from)  ((void)0)
 #else
+/* the running thread is about to save its context into *from and leave its worker */
+#define MYTH_VERIF_CTX_SAVE(from)  mythv_point(mythv_p_ctx_save, (from), sizeof(*(from)))
 #define MYTH_VERIF_POINT(id, lv)  mythv_point((id), &(lv), sizeof(lv))
 /* every atomic read-modify-write of the library is a scheduling point:
    a function-like macro is not expanded again inside its own expansion */
@@ -159,6 +163,7 @@ void mythv_leave(int rank);
 #else  /* MYTH_VERIF */
 
 #define MYTH_VERIF_POINT(id, lv)  ((void)0)
+#define MYTH_VERIF_CTX_SAVE(from)  ((void)0)
 #define MYTH_VERIF_SPIN(id, lv)   ((void)0)
 #define MYTH_VERIF_YSPIN(id, lv)  ((void)0)
 #define MYTH_VERIF_IDLE(id, rank) ((void)0)
